@@ -1937,6 +1937,26 @@ impl Db {
 		self.inner.store_err(result)
 	}
 
+	/// Verification hook: (`next_reindex`, `last_enacted`); a `process_reindex` call plans a batch
+	/// only if `next_reindex != 0 && next_reindex <= last_enacted`.
+	#[cfg(pdb_verif)]
+	pub fn verif_reindex_state(&self) -> (u64, u64) {
+		(
+			self.inner.next_reindex.load(Ordering::SeqCst),
+			self.inner.last_enacted.load(Ordering::SeqCst),
+		)
+	}
+
+	/// Verification hook: read-only structural dump of a hash column.
+	#[cfg(pdb_verif)]
+	pub fn verif_dump(&self, col: ColId, with_values: bool) -> Result<crate::verif::VerifDump> {
+		match &self.inner.columns[col as usize] {
+			Column::Hash(c) => c.verif_dump(&self.inner.log, with_values),
+			Column::Tree(_) =>
+				Err(Error::InvalidConfiguration("verif_dump: not a hash column".to_string())),
+		}
+	}
+
 	#[cfg(feature = "instrumentation")]
 	pub fn process_reindex(&self) -> Result<()> {
 		self.inner.process_reindex()?;
